@@ -138,4 +138,147 @@ theorem multiClass_argmax {L P : Type} [LinearOrder P] (best : L × P) (ds : Lis
 
 example : argmaxPairGo (7, 1) [(9, 3), (4, 3), (5, 2)] = (9, 3) := by decide
 
+
+/-! ## The structural families: `batch = map row`
+
+Each `…Batch` is written as the Rust code processes the whole matrix; each `…Row` is what it
+does to one row.  All statements hold for every batch (empty, single, duplicated, any order). -/
+
+section families
+set_option linter.unusedSectionVars false
+variable {α : Type} [Add α] [Sub α] [Mul α] [Div α] [LT α] [DecidableLT α] [LE α] [DecidableLE α]
+  [OfNat α 0]
+
+/-- affine family (`x.dot(w) + b`: OLS, elastic net, GLM linear predictor, logistic, SVM-linear) -/
+theorem affine_batch_eq_map (rows : List (List α)) (w : List α) (b : α) :
+    affineBatch rows w b = rows.map (affineRow w b) := by
+  simp [affineBatch, matVec, affineRow, List.map_map, Function.comp_def]
+
+/-- centred/scaled linear maps (`((x - mean) / std)·C + bias`: PCA, PLS, multi-task elastic net):
+the four whole-matrix passes equal the per-row computation -/
+theorem linMap_batch_eq_map (mean std : List α) (cols : List (List α)) (bias : List α)
+    (rows : List (List α)) :
+    linMapBatch mean std cols bias rows = rows.map (linMapRow mean std cols bias) := by
+  simp [linMapBatch, addRows, matMul, divRows, subRows, linMapRow, List.map_map, Function.comp_def]
+
+/-- k-means: with at least one centroid no call fails and the membership vector is the per-row
+nearest-centroid index -/
+theorem kmeans_batch_eq_map (c0 : List α) (cents : List (List α)) (rows : List (List α)) :
+    kmeansBatch (c0 :: cents) rows =
+      some (rows.map fun r => (closestGo r (c0 :: cents) 0 (0, sqDist c0 r)).1) := by
+  unfold kmeansBatch
+  exact mapM_some_of_forall _ _ rows (fun r _ => by simp [closestCentroid])
+
+/-- score tables (naive Bayes: class-major likelihood table read sample-major; GMM; multinomial
+logistic): for per-sample class scores the arg-max of column `i` of the class-major table is the
+arg-max of row `i`'s own score vector; the call fails exactly when there is a row but no class. -/
+theorem table_batch_eq_map {R : Type} (ss : List (R → α)) (rows : List R) :
+    tableBatch (ss.map fun s => fun rs => rs.map s) rows =
+      if ss.isEmpty && !rows.isEmpty then none else some (rows.map (tableRow ss)) := by
+  unfold tableBatch
+  simp only [List.isEmpty_map, List.map_map, Function.comp_def]
+  split
+  · rfl
+  · congr 1
+    apply map_range_eq_map
+    intro i hi
+    simp only [tableRow]
+    rw [column_of_rows ss rows i hi]
+
+/-- threshold family (binary logistic `p >= threshold`, SVM `val >= 0`) -/
+theorem thresh_batch_eq_map {R : Type} (d : R → α) (thr : α) (rows : List R) :
+    threshBatch (fun rs => rs.map d) thr rows = rows.map fun r => decide (thr ≤ d r) := by
+  simp [threshBatch, List.map_map, Function.comp_def]
+
+end families
+
+example : affineBatch ([[1, 2], [3, 4]] : List (List Int)) [10, 1] 5 = [17, 39] := by decide
+example : linMapBatch ([1, 1] : List Int) [1, 1] [[1, 0], [1, 1]] [0, 100] [[1, 2], [3, 4]] = [[0, 101], [2, 105]] := by decide
+example : kmeansBatch ([[0], [10]] : List (List Int)) [[1], [9], [5]] = some [0, 1, 0] := by decide
+example : tableBatch ([fun (x : Int) => x, fun x => 3 - x].map fun s => fun rs => rs.map s) [0, 1, 2, 3]
+    = some [1, 1, 0, 0] := by decide
+example : threshBatch (fun rs => rs.map fun (x : Int) => 2 * x) 3 [1, 2] = [false, true] := by decide
+
+/-- tree descent never fails when every split feature exists in the row -/
+def treeFeaturesBelow {α L : Type} : Tree α L → Nat → Prop
+  | .leaf _, _ => True
+  | .node f _ lo hi, p => f < p ∧ treeFeaturesBelow lo p ∧ treeFeaturesBelow hi p
+
+theorem tree_descend_total {α L : Type} [LT α] [DecidableLT α] (t : Tree α L) (x : List α)
+    (h : treeFeaturesBelow t x.length) : ∃ l, treeDescend t x = some l := by
+  induction t with
+  | leaf l => exact ⟨l, rfl⟩
+  | node f thr lo hi ihlo ihhi =>
+    obtain ⟨hf, hlo, hhi⟩ := h
+    simp only [treeDescend, List.getElem?_eq_getElem hf]
+    split
+    · exact ihlo hlo
+    · exact ihhi hhi
+
+def treeAnyLeaf {α L : Type} : Tree α L → L
+  | .leaf l => l
+  | .node _ _ lo _ => treeAnyLeaf lo
+
+/-- decision tree: the batch loop is the per-row descent, and it is total on rows of the
+fitted width -/
+theorem tree_batch_eq_map {α L : Type} [LT α] [DecidableLT α] (t : Tree α L) (rows : List (List α))
+    (p : Nat) (ht : treeFeaturesBelow t p) (hrows : ∀ r ∈ rows, r.length = p) :
+    ∃ g : List α → L, (∀ r ∈ rows, treeDescend t r = some (g r)) ∧
+      treeBatch t rows = some (rows.map g) := by
+  refine ⟨fun r => (treeDescend t r).getD (treeAnyLeaf t), ?_, ?_⟩
+  · intro r hr
+    obtain ⟨l, hl⟩ := tree_descend_total t r (by rw [hrows r hr]; exact ht)
+    simp [hl]
+  · apply mapM_some_of_forall
+    intro r hr
+    obtain ⟨l, hl⟩ := tree_descend_total t r (by rw [hrows r hr]; exact ht)
+    simp [hl]
+
+example : treeBatch (Tree.node 0 (5 : Int) (.leaf 1) (.node 1 2 (.leaf 2) (.leaf 3))) [[4, 0], [5, 1], [5, 2]]
+    = some [1, 2, 3] := by decide
+
+/-! ## What `batch = map row` gives: composition, order and multiplicity of the batch do not matter -/
+
+/-- exactly one output per input row -/
+theorem predict_length {R T : Type} (f : R → T) (rows : List R) : (rows.map f).length = rows.length := by
+  simp
+
+theorem predict_nil {R T : Type} (f : R → T) : ([] : List R).map f = [] := rfl
+
+/-- predicting a concatenated batch = concatenating the predictions -/
+theorem predict_append {R T : Type} (f : R → T) (a b : List R) : (a ++ b).map f = a.map f ++ b.map f := by
+  simp
+
+/-- permuting the batch permutes the outputs the same way -/
+theorem predict_perm {R T : Type} (f : R → T) (a b : List R) (h : a.Perm b) : (a.map f).Perm (b.map f) :=
+  h.map f
+
+/-- row `i` of the batch result is the result of the one-row batch `[rows[i]]` -/
+theorem predict_row_alone {R T : Type} (f : R → T) (rows : List R) (i : Nat) (hi : i < rows.length) :
+    (rows.map f)[i]? = ([rows[i]].map f)[0]? := by
+  simp [List.getElem?_eq_getElem hi]
+
+/-- equal rows get equal outputs wherever they stand -/
+theorem predict_duplicates {R T : Type} (f : R → T) (rows rows' : List R) (i j : Nat)
+    (hi : i < rows.length) (hj : j < rows'.length) (h : rows[i] = rows'[j]) :
+    (rows.map f)[i]? = (rows'.map f)[j]? := by
+  simp [List.getElem?_eq_getElem hi, List.getElem?_eq_getElem hj, h]
+
+example : ([1, 2] ++ [3] : List Nat).map (· + 1) = [1, 2].map (· + 1) ++ [3].map (· + 1) := predict_append _ _ _
+
+/-! ## The calling forms -/
+
+/-- the five calling forms return the same targets -/
+theorem forms_agree {R T : Type} (inplace : List R → T) (f g : Form) (records : List R) :
+    (predictForm inplace f records).targets = (predictForm inplace g records).targets := by
+  cases f <;> cases g <;> rfl
+
+/-- the dataset-returning forms hand back the input records unchanged -/
+theorem dataset_form_returns_records {R T : Type} (inplace : List R → T) (records : List R) :
+    (predictForm inplace .ownedArray records).records = some records ∧
+    (predictForm inplace .ownedDataset records).records = some records := ⟨rfl, rfl⟩
+
+example : (predictForm (fun (rs : List Nat) => rs.map (· * 2)) .ownedDataset [1, 2]).targets =
+    (predictForm (fun rs => rs.map (· * 2)) .inplace [1, 2]).targets := forms_agree _ _ _ _
+
 end LinfaSpec.Props.C03
